@@ -111,7 +111,12 @@ func (ex *Exec) builtin(st *State, name string, args []Val, in *ssa.Call) []Outc
 		}
 		switch t := args[1].(type) {
 		case Slice:
-			return ret1(st, ex.appendSlices(st, s, t))
+			if in != nil && len(in.Call.Args) > 0 {
+				ex.appendBase = in.Call.Args[0]
+			}
+			r := ex.appendSlices(st, s, t)
+			ex.appendBase = nil
+			return ret1(st, r)
 		case Str:
 			outside("append(bytes, string...)")
 		}
@@ -144,12 +149,25 @@ func (ex *Exec) builtin(st *State, name string, args []Val, in *ssa.Call) []Outc
 // array per append) cannot express that, so such values are poisoned: reading one later
 // puts the function outside the verified subset instead of proving something unsound.
 func (ex *Exec) poisonAliases(st *State, a Slice) {
+	// values from which the appended-to slice was obtained by appends only (through phis)
+	// are never longer than it: their elements lie below the position append writes to
+	safe := map[string]bool{}
+	if ex.appendBase != nil && st.Fr != nil {
+		for k, v := range st.Fr.Env {
+			if sl, ok := v.(Slice); ok && sl.B == a.B && appendAncestor(k, ex.appendBase) {
+				safe[sl.Arr+"|"+sl.Len] = true
+			}
+		}
+	}
 	poison := func(v Val) (Val, bool) {
 		s, ok := v.(Slice)
 		if !ok || s.B != a.B {
 			return v, false
 		}
 		if s.Arr == a.Arr && (s.Len == a.Len || s.Len == "0") {
+			return v, false
+		}
+		if safe[s.Arr+"|"+s.Len] {
 			return v, false
 		}
 		return Opaque{Why: "slice sharing a backing array that a later append(alias[:n], ...) may have overwritten"}, true
@@ -169,6 +187,40 @@ func (ex *Exec) poisonAliases(st *State, a Slice) {
 	for o, c := range st.Mem {
 		st.Mem[o] = mapVal(c, poison)
 	}
+}
+
+// appendAncestor: every definition path of the SSA value `from` leads back to `anc` through
+// phis and append calls only (cycles through loop phis allowed): then len(anc) <= len(from).
+func appendAncestor(anc, from ssa.Value) bool {
+	seen := map[ssa.Value]bool{}
+	var walk func(v ssa.Value) bool
+	walk = func(v ssa.Value) bool {
+		if v == anc {
+			return true
+		}
+		if seen[v] {
+			return true // a cycle through a loop phi: decided by the other edges
+		}
+		seen[v] = true
+		switch x := v.(type) {
+		case *ssa.Phi:
+			for _, e := range x.Edges {
+				if !walk(e) {
+					return false
+				}
+			}
+			return true
+		case *ssa.Call:
+			if b, ok := x.Call.Value.(*ssa.Builtin); ok && b.Name() == "append" && len(x.Call.Args) > 0 {
+				return walk(x.Call.Args[0])
+			}
+		}
+		return false
+	}
+	if anc == from {
+		return false
+	}
+	return walk(from)
 }
 
 func (ex *Exec) appendSlices(st *State, a, b Slice) Slice {
@@ -426,6 +478,17 @@ func (ex *Exec) typeLoc(sc *Scope, loc string) (root types.Type, names string, t
 		return nil, "", nil, false
 	}
 	tn, isType := sc.Pkg.Pkg.Scope().Lookup(parts[0]).(*types.TypeName)
+	if !isType && len(parts) >= 3 {
+		// package-qualified: aa.Variable.Values
+		for _, imp := range sc.Pkg.Pkg.Imports() {
+			if imp.Name() == parts[0] {
+				if t2, ok := imp.Scope().Lookup(parts[1]).(*types.TypeName); ok {
+					tn, isType = t2, true
+					parts = parts[1:]
+				}
+			}
+		}
+	}
 	if !isType {
 		return nil, "", nil, false
 	}
@@ -1135,6 +1198,7 @@ func (ex *Exec) havocLoop(st *State, b *ssa.BasicBlock, wObjs map[*Obj]bool, wKe
 		st.Fr.Env[phi] = v
 		if phi.Comment != "" {
 			st.Fr.Names[phi.Comment] = v
+			delete(st.Fr.ZeroNamed, phi.Comment) // re-bound by the phi: no longer "only a zero constant"
 			delete(st.Fr.Addr, phi.Comment)
 		}
 	}
